@@ -46,6 +46,10 @@ def gen(r, tier, i):
     if i < len(_ENUM):
         ev, ts = _ENUM[i]
         return {'events': copy.deepcopy(ev), 'ts': ts, 'run': 6, 'entry': 'direct', 'other': False}
+    if r.random() < 0.05:
+        ev = [[r.choice(TIMES), r.choice(['base', 'base', r.randint(1, 9)])] for _ in range(r.randint(2, 4))]
+        return {'family': 'field', 'base': [10.0, 20.0], 'events': ev, 'ts': r.choice([0.5, 1]), 'cts': r.choice([0.5, 1, 2]),
+                'runs': [r.choice([2, 3, 4]) for _ in range(r.randint(1, 2))]}
     k = r.randint(1, 5 if tier == 'quick' else 6)
     events = []
     for j in range(k):
@@ -102,7 +106,58 @@ def model(events, ts, run, driven):
     return out
 
 
+def run_field(spec):
+    """Array-valued events: a baseline array object listed in several events (reset protocols) while another
+    process accumulates on the variable. The events must set the variable to the value given in the timeline -
+    the run with one shared array object equals the run with an independent copy per event, and the arrays the
+    caller listed are unchanged afterwards."""
+    import numpy as np
+    from vivarium.core.engine import Engine
+    from vivarium.core.process import Process
+    from vivarium.processes.timeline import TimelineProcess
+    V = Viol()
+
+    class Consumer(Process):
+        def ports_schema(self):
+            return {'f': {'glc': {'_default': np.array([0.0, 0.0]), '_emit': True}}}
+
+        def calculate_timestep(self, states):
+            return self.parameters['ts']
+
+        def next_update(self, timestep, states):
+            return {'f': {'glc': np.array([-1.0, -2.0])}}
+
+    def once(shared):
+        base = np.array(spec['base'], dtype=float)
+        tl = []
+        for t, kind in spec['events']:
+            value = (base if shared else base.copy()) if kind == 'base' else np.array([float(kind), 0.5])
+            tl.append((t, {('f', 'glc'): value}))
+        e = Engine(processes={'timeline': TimelineProcess({'timeline': tl, 'time_step': spec['ts']}),
+                              'consumer': Consumer({'ts': spec['cts']})},
+                   topology={'timeline': {'global': ('global',), 'f': ('f',)}, 'consumer': {'f': ('f',)}},
+                   display_info=False)
+        for iv in spec['runs']:
+            e.update(iv)
+        return {t: [float(x) for x in row['f']['glc']] for t, row in e.emitter.get_data().items()}, base
+    try:
+        a, base_a = once(True)
+        b, _ = once(False)
+        bad = [t for t in sorted(set(a) | set(b)) if a.get(t) != b.get(t)]
+        V.check('trajectory', not bad,
+                lambda: ('events listing one array object at several times: the run differs from the run with a copy per event, first '
+                         'at t=%r' % bad[0], a.get(bad[0]), b.get(bad[0]), spec['events']))
+        V.check('trajectory', [float(x) for x in base_a] == [float(x) for x in spec['base']],
+                lambda: ('the array the caller listed in the timeline was changed by the run', spec['base'], list(base_a)))
+    except Exception as ex:
+        V.check('trajectory', False, ('engine raised', type(ex).__name__, str(ex)[:200]))
+    return {'viol': list(V), 'evals': V.evals, 'nontrivial': len(spec['events']) >= 2, 'classes': ['field'],
+            'summary': {'events': len(spec['events'])}}
+
+
 def run(spec):
+    if spec.get('family') == 'field':
+        return run_field(spec)
     import vivarium  # noqa
     from vivarium.core.engine import Engine
     from vivarium.core.process import Process, Step
